@@ -1,71 +1,197 @@
 package main
 
 import (
+	"fmt"
 	"math"
 	"reflect"
+	"sort"
 	"strconv"
+	"strings"
 	"time"
 )
 
 var timeType = reflect.TypeOf(time.Time{})
 var tagNames = []string{"valid", "alipay", "wechat"}
 
+// encCtx collects, while a value is encoded, the standard library's `%v` rendering of every node
+// that is not a scalar, keyed by the node's fingerprint (lean/PGV/Model/Value.lean `GoVal.fp`).
+// It answers the residual query `sprint`.  A fingerprint carried by two nodes that render
+// differently (pointer identity is not on the wire) is marked ambiguous and answered "unknown".
+type encCtx struct {
+	sp  map[string]string
+	amb map[string]bool
+	val map[string]reflect.Value // a node carrying the fingerprint (for the `deepeq` residual)
+}
+
+func newEncCtx() *encCtx {
+	return &encCtx{sp: map[string]string{}, amb: map[string]bool{}, val: map[string]reflect.Value{}}
+}
+
+// deepEqual answers reflect.DeepEqual(a.Interface(), b.Interface()) for two nodes named by their
+// fingerprints: 1 equal, 0 different, 2 unknown
+func (c *encCtx) deepEqual(a, b string) int {
+	if c == nil || c.amb[a] || c.amb[b] {
+		return 2
+	}
+	va, ok1 := c.val[a]
+	vb, ok2 := c.val[b]
+	if !ok1 || !ok2 {
+		return 2
+	}
+	if reflect.DeepEqual(va.Interface(), vb.Interface()) {
+		return 1
+	}
+	return 0
+}
+
+func (c *encCtx) record(fp string, v reflect.Value) {
+	if c == nil || !v.IsValid() || !v.CanInterface() {
+		return
+	}
+	var text string
+	func() {
+		defer func() {
+			if r := recover(); r != nil {
+				c.amb[fp] = true
+			}
+		}()
+		text = fmt.Sprintf("%v", v.Interface())
+	}()
+	if old, ok := c.sp[fp]; ok && old != text {
+		c.amb[fp] = true
+	}
+	c.sp[fp] = text
+	c.val[fp] = v
+}
+
+func lenPref(s string) string { return strconv.Itoa(len(s)) + ":" + s }
+
 // encodeValue renders a Go value in the wire format of lean/PGV/Driver/Value.lean, using only
 // reflect (never the repository under test).
 func encodeValue(v reflect.Value) string {
+	s, _ := encodeValueCtx(v, nil)
+	return s
+}
+
+// encodeValueCtx returns the wire form and the fingerprint of v
+func encodeValueCtx(v reflect.Value, c *encCtx) (string, string) {
+	s, fp := encodeValueCtx1(v, c)
+	if c != nil && v.IsValid() && v.CanInterface() {
+		if _, ok := c.val[fp]; !ok {
+			c.val[fp] = v
+		}
+	}
+	return s, fp
+}
+
+func encodeValueCtx1(v reflect.Value, c *encCtx) (string, string) {
 	switch v.Kind() {
 	case reflect.String:
-		return N("str", X(v.String()))
+		return N("str", X(v.String())), "s" + lenPref(v.String())
 	case reflect.Bool:
-		return N("bool", B(v.Bool()))
+		if v.Bool() {
+			return N("bool", B(true)), "b1"
+		}
+		return N("bool", B(false)), "b0"
 	case reflect.Int, reflect.Int8, reflect.Int16, reflect.Int32, reflect.Int64:
-		return N("int", I(int64(bitsOf(v.Kind()))), I(v.Int()))
+		return N("int", I(int64(bitsOf(v.Kind()))), I(v.Int())),
+			"i" + strconv.Itoa(bitsOf(v.Kind())) + ":" + strconv.FormatInt(v.Int(), 10) + ";"
 	case reflect.Uint, reflect.Uint8, reflect.Uint16, reflect.Uint32, reflect.Uint64:
-		return N("uint", I(int64(bitsOf(v.Kind()))), U(v.Uint()))
+		return N("uint", I(int64(bitsOf(v.Kind()))), U(v.Uint())),
+			"u" + strconv.Itoa(bitsOf(v.Kind())) + ":" + strconv.FormatUint(v.Uint(), 10) + ";"
 	case reflect.Float32, reflect.Float64:
 		bits := 64
 		if v.Kind() == reflect.Float32 {
 			bits = 32
 		}
 		f := v.Float()
+		own := strconv.FormatFloat(f, 'f', -1, bits)
 		return N("float", I(int64(bits)), U(math.Float64bits(f)),
-			X(strconv.FormatFloat(f, 'f', -1, 64)), X(strconv.FormatFloat(f, 'f', -1, bits)))
+			X(strconv.FormatFloat(f, 'f', -1, 64)), X(own)), "f" + strconv.Itoa(bits) + ":" + own + ";"
 	case reflect.Ptr:
+		t := v.Type().String()
 		if v.IsNil() {
-			return N("ptr", X(v.Type().String()), "nil")
+			fp := "p" + lenPref(t) + "n"
+			c.record(fp, v)
+			return N("ptr", X(t), "nil"), fp
 		}
-		return N("ptr", X(v.Type().String()), encodeValue(v.Elem()))
+		es, efp := encodeValueCtx(v.Elem(), c)
+		fp := "p" + lenPref(t) + efp
+		c.record(fp, v)
+		return N("ptr", X(t), es), fp
 	case reflect.Interface:
 		if v.IsNil() {
-			return N("iface", "nil")
+			return N("iface", "nil"), "In"
 		}
-		return N("iface", encodeValue(v.Elem()))
+		es, efp := encodeValueCtx(v.Elem(), c)
+		return N("iface", es), "I" + efp
 	case reflect.Slice:
-		args := []string{X(v.Type().String()), X(v.Type().Elem().String()), B(v.IsNil())}
-		for i := 0; i < v.Len(); i++ {
-			args = append(args, encodeValue(v.Index(i)))
+		t := v.Type().String()
+		args := []string{X(t), X(v.Type().Elem().String()), B(v.IsNil())}
+		fp := "S" + lenPref(t)
+		if v.IsNil() {
+			fp += "n"
+		} else {
+			fp += "v"
 		}
-		return N("slice", args...)
+		fp += "["
+		for i := 0; i < v.Len(); i++ {
+			es, efp := encodeValueCtx(v.Index(i), c)
+			args = append(args, es)
+			fp += efp + ","
+		}
+		fp += "]"
+		c.record(fp, v)
+		return N("slice", args...), fp
 	case reflect.Array:
-		args := []string{X(v.Type().String()), X(v.Type().Elem().String())}
+		t := v.Type().String()
+		args := []string{X(t), X(v.Type().Elem().String())}
+		fp := "A" + lenPref(t) + "["
 		for i := 0; i < v.Len(); i++ {
-			args = append(args, encodeValue(v.Index(i)))
+			es, efp := encodeValueCtx(v.Index(i), c)
+			args = append(args, es)
+			fp += efp + ","
 		}
-		return N("array", args...)
+		fp += "]"
+		c.record(fp, v)
+		return N("array", args...), fp
 	case reflect.Map:
-		args := []string{X(v.Type().String()), B(v.Type().Key().Kind() == reflect.String), B(v.IsNil())}
+		t := v.Type().String()
+		args := []string{X(t), B(v.Type().Key().Kind() == reflect.String), B(v.IsNil())}
+		var efps []string
 		it := v.MapRange()
 		for it.Next() {
-			args = append(args, N("e", encodeValue(it.Key()), encodeValue(it.Value())))
+			ks, kfp := encodeValueCtx(it.Key(), c)
+			vs, vfp := encodeValueCtx(it.Value(), c)
+			args = append(args, N("e", ks, vs))
+			efps = append(efps, kfp+"="+vfp+",")
 		}
-		return N("map", args...)
+		sort.Strings(efps)
+		fp := "M" + lenPref(t)
+		if v.IsNil() {
+			fp += "n"
+		} else {
+			fp += "v"
+		}
+		fp += "{" + strings.Join(efps, "") + "}"
+		c.record(fp, v)
+		return N("map", args...), fp
 	case reflect.Struct:
 		t := v.Type()
 		args := []string{X(t.String()), X(t.Name()), B(t == timeType)}
+		fp := "T" + lenPref(t.String()) + "{"
 		if t == timeType {
 			// opaque: one synthetic field carrying zero-ness
-			args = append(args, N("f", X("wall"), B(false), B(false), N("tags"), N("bool", B(!v.IsZero()))))
-			return N("struct", args...)
+			nz := !v.IsZero()
+			args = append(args, N("f", X("wall"), B(false), B(false), N("tags"), N("bool", B(nz))))
+			if nz {
+				fp += lenPref("wall") + "b1,"
+			} else {
+				fp += lenPref("wall") + "b0,"
+			}
+			fp += "}"
+			c.record(fp, v)
+			return N("struct", args...), fp
 		}
 		for i := 0; i < t.NumField(); i++ {
 			sf := t.Field(i)
@@ -75,11 +201,23 @@ func encodeValue(v reflect.Value) string {
 					tags = append(tags, N("t", X(tn), X(tv)))
 				}
 			}
-			args = append(args, N("f", X(sf.Name), B(sf.PkgPath == ""), B(sf.Type == timeType), N("tags", tags...), encodeValue(v.Field(i))))
+			fs, ffp := encodeValueCtx(v.Field(i), c)
+			args = append(args, N("f", X(sf.Name), B(sf.PkgPath == ""), B(sf.Type == timeType), N("tags", tags...), fs))
+			fp += lenPref(sf.Name) + ffp + ","
 		}
-		return N("struct", args...)
+		fp += "}"
+		c.record(fp, v)
+		return N("struct", args...), fp
 	default:
-		return N("other", I(int64(v.Kind())), X(v.Type().String()), X(v.Type().Name()), B(v.IsZero()))
+		t := v.Type().String()
+		fp := "O" + strconv.Itoa(int(v.Kind())) + ":" + lenPref(t)
+		if v.IsZero() {
+			fp += "z"
+		} else {
+			fp += "v"
+		}
+		c.record(fp, v)
+		return N("other", I(int64(v.Kind())), X(t), X(v.Type().Name()), B(v.IsZero())), fp
 	}
 }
 
@@ -99,10 +237,18 @@ func bitsOf(k reflect.Kind) int {
 
 // encodeSrc: what is passed as `src interface{}`
 func encodeSrc(src interface{}) string {
+	s, _ := encodeSrcCtx(src)
+	return s
+}
+
+// encodeSrcCtx also returns the table answering `sprint` residual queries about this value
+func encodeSrcCtx(src interface{}) (string, *encCtx) {
+	c := newEncCtx()
 	if src == nil {
-		return "nil"
+		return "nil", c
 	}
-	return N("val", X(reflect.TypeOf(src).String()), encodeValue(reflect.ValueOf(src)))
+	s, _ := encodeValueCtx(reflect.ValueOf(src), c)
+	return N("val", X(reflect.TypeOf(src).String()), s), c
 }
 
 func encodeRM(rm map[string]string) string {
